@@ -15,8 +15,8 @@ PROP = {'rule': 'rapid-generated cases. validating: a pod (QoS label in {LSE,LSR
          'qosClass, priorityClassName, labels incl. the class label, annotations, key mappings, koordinatorPriority, schedulerName, '
          'probability with the random roll as a case input, skip-update-resources, label patch); after the main admission the same pod (original object, and admitted object) is admitted again as a create while '
          'carrying a tampered copy of the true summary annotation (superset with an extra batch or foreign entry in an existing '
-         'container, changed amount, removed entry, extra container, respelled amounts, or the truth) and the annotation must again '
-         'match the final spec; non-trivial = the pod was translated '
+         'container, changed amount, removed entry, extra container, respelled amounts, the truth, or something undecodable: truncated / wrong type / bad quantity / not JSON / empty) and, '
+         'unless the admission is refused, the annotation must again be decodable and match the final spec; non-trivial = the pod was translated '
          '(mid/batch) and has a fractional or sub-milli cpu amount or a container with a limit but no request. distinct = FNV-64 of the '
          'full case.',
  'assumptions': ['priority class of a pod = the koordinator.sh/priority-class label when present (unknown name = no class), else the '
@@ -34,7 +34,7 @@ PROP = {'rule': 'rapid-generated cases. validating: a pod (QoS label in {LSE,LSR
                  'priority class and QoS BE/none (tier derived from QoS) both "translated as batch" and "left alone" are accepted; '
                  'otherwise resources must be unchanged',
                  'cpu is kept in milli-cores rounded up (Quantity.MilliValue); where one list declares both the native and the extended '
-                 'name either amount is accepted; a limit without a request gives the request the limit\'s amount',
+                 'name the translated native amount must be the one that survives (the statement is about the translated cpu/memory); a limit without a request gives the request the limit\'s amount',
                  'the summary annotation is compared on batch-cpu/batch-memory of spec.containers (what the code documents); mid entries '
                  'and init containers missing from it are counted, not asserted',
                  'LabelSuffixes profiles are not generated (they append on every admission by design); profile selectors use label keys '
